@@ -24,9 +24,9 @@
  *   file removed by name, descriptor_log/file reset to NULL.
  * VP_FIRST 0: MANIFEST already open: edit record, sync (mutex released), then
  *   install; on failure nothing installed and the open MANIFEST is kept.
- * VP_CREATE_FAILS 1 (finding F5): ldb_truncfile_create fails; the failure
- *   path hands NULL to ldb_wfile_destroy, which env_unix dereferences.  All
- *   other configurations exclude exactly this case.
+ *   A failed ldb_truncfile_create (finding F5, repaired in ad314e0) is part
+ *   of it: the error is returned, neither ldb_writer_destroy nor
+ *   ldb_wfile_destroy is handed NULL (env_unix dereferences it).
  * VP_SHAPE 0: empty base version, edit carries only counters (ldb_open);
  *          1: base has one file in level 1, edit adds a level-0 file (flush);
  *          2: base has files in levels 1 and 2, edit deletes the level-1 file
@@ -49,15 +49,7 @@ void ldb_edit_export(ldb_buffer_t *dst, const ldb_edit_t *edit);
 #ifndef VP_SHAPE
 #define VP_SHAPE 0
 #endif
-#ifndef VP_CREATE_FAILS
-#define VP_CREATE_FAILS 0
-#endif
 
-#if VP_CREATE_FAILS
-#define VP_TAG "KF:F5-apply-create-failure-null-destroy "
-#else
-#define VP_TAG ""
-#endif
 
 struct ldb_wfile_s { int id; };
 
@@ -167,11 +159,6 @@ ldb_truncfile_create(const char *filename, ldb_wfile_t **file) {
   VP_ASSERT(filename[0] == 'M' && filename[1] == 'F' && filename[2] == '\0', "created under the descriptor file name");
   VP_ASSERT(*file == NULL, "no MANIFEST handle is overwritten");
   rc = vp_rc();
-#if VP_CREATE_FAILS
-  VP_ASSUME(rc != LDB_OK);
-#else
-  VP_ASSUME(rc == LDB_OK);         /* excluded: finding F5 (its own obligation) */
-#endif
   if (rc != LDB_OK)
     return rc;                     /* env_unix leaves *file untouched on failure */
   created = 1;
@@ -295,6 +282,7 @@ void
 ldb_writer_destroy(ldb_writer_t *lw) {
   wdestroyed++;
   VP_ASSERT(failed, "the MANIFEST writer is dropped only on failure");
+  VP_ASSERT(lw != NULL, "C12 a failed MANIFEST creation is returned as an error: ldb_writer_destroy is never handed NULL");
   VP_ASSERT(lw == NULL || lw == &new_writer, "only the writer of the freshly created MANIFEST is dropped");
 }
 
@@ -309,7 +297,7 @@ void
 ldb_wfile_destroy(ldb_wfile_t *file) {
   fdestroyed++;
   VP_ASSERT(failed, "the MANIFEST handle is dropped only on failure");
-  VP_ASSERT(file != NULL, VP_TAG "ldb_wfile_destroy is never handed NULL (env_unix dereferences it)");
+  VP_ASSERT(file != NULL, "C12 a failed MANIFEST creation is returned as an error: ldb_wfile_destroy is never handed NULL (env_unix dereferences it)");
   VP_ASSERT(file == NULL || file == &new_file, "only the freshly created MANIFEST is closed");
 }
 
@@ -474,21 +462,19 @@ harness(void) {
 #if VP_FIRST
     VP_ASSERT(vset.descriptor_log == NULL && vset.descriptor_file == NULL, "failure: descriptor_log/descriptor_file reset");
     VP_ASSERT(!created || (wdestroyed == 1 && fdestroyed == 1 && removed == 1), "failure: the freshly created MANIFEST is closed and removed");
-    VP_ASSERT(created || descname_calls == 0 || create_calls == 1 || removed == 0, "failure before a name existed: nothing to remove");
+    VP_ASSERT(created || (wdestroyed == 0 && fdestroyed == 0), "failure before the MANIFEST existed: no handle to close");
+    VP_ASSERT(create_calls == 1 || removed == 0, "failure before a name existed: nothing to remove");
 #else
     VP_ASSERT(vset.descriptor_log == &old_writer && vset.descriptor_file == &old_file && !wdestroyed && !fdestroyed && !removed,
               "failure with an open MANIFEST: it stays open, nothing is removed");
 #endif
-#if VP_CREATE_FAILS
-    VP_WITNESS("create-failed");
-#else
     if (!edit_added && add_calls == 1 + VP_FIRST) VP_WITNESS("append-failed");
     if (edit_added && !synced) VP_WITNESS("sync-failed");
 #if VP_FIRST
     if (synced) VP_WITNESS("set-current-failed");
     if (created && !snapshot_added) VP_WITNESS("snapshot-failed");
-    if (!created) VP_WITNESS("no-file-name");
-#endif
+    if (create_calls == 0) VP_WITNESS("no-file-name");
+    if (create_calls == 1 && !created) VP_WITNESS("create-failed");
 #endif
   }
 }
